@@ -45,6 +45,20 @@ def main(argv=None) -> int:
         F = facts_mod.load(a.repo)
         chk = Check(prop, F, a.tier)
         mod.check(chk)
+        if a.tier == 'thorough' and not os.environ.get('SQSTATIC_NO_SELFTEST'):
+            # re-validate this checker against its mutant / benign corpus (scratch copies, 16 processes)
+            sys.path.insert(0, os.path.dirname(os.path.dirname(os.path.abspath(__file__))))
+            from selftest.run import for_property
+            st = for_property(prop, a.repo)
+            chk.extra['checker_selftest'] = st
+            if st.get('ran') and st.get('failed'):
+                rc = finish(chk, seed=seed, evidence_dir=a.evidence_dir, quiet=a.quiet)
+                for f in st['failed']:
+                    print('ANALYSIS-ERROR property=%s checker self-test entry %s failed: %s' % (prop, f['id'], f['why']))
+                return rc if rc == 1 else 2
+            if not a.quiet:
+                print('%s: checker self-test: %s' % (prop, ('%d corpus entries (%d mutants caught, %d benign variants silent), %d skipped' % (
+                    st['entries'], st['mutants'], st['benign'], len(st['skipped']))) if st.get('ran') else st.get('reason')))
         return finish(chk, seed=seed, evidence_dir=a.evidence_dir, quiet=a.quiet)
     except AnalysisError as e:
         print('ANALYSIS-ERROR property=%s %s' % (prop, e))
